@@ -32,7 +32,9 @@ Fail(name, ok) == IF ok THEN {} ELSE {name}
 DueOf(v) == UNION {x.s : x \in {y \in dues : y.v = v}}
 InCache(st, n) == n \in DOMAIN st.cache /\ st.cache[n].ex
 Sched(st, n) == InCache(st, n) /\ st.cache[n].en /\ st.cache[n].ver # -1
-SchedKey(c) == <<c.ex, c.uid, c.ver>>
+\* (lastUpdated is part of it: the informer handler flushes when it differs, e.g. when a re-list jumps over intermediate versions
+\*  and lands on the same schedule with a newer stamp)
+SchedKey(c) == <<c.ex, c.uid, c.ver, c.lu>>
 HeapPos(st, n) == {i \in 1..Len(st.hnames) : st.hnames[i] = n}
 InHeap(st, n) == HeapPos(st, n) # {}
 HeapPrio(st, n) == st.hprio[CHOOSE i \in HeapPos(st, n) : TRUE]
